@@ -453,10 +453,19 @@ func (s *scen) exec(base *coreh.Env, protected []*bref, pl plan) execInfo {
 			return false
 		}
 		ks, err := keysOf(cx, b)
-		if err != nil {
-			// the upload reported success but its blobs are already gone: judged below through the missing keys
-			ks = map[string]bool{}
+		if err != nil || os.Getenv("VERIF_C13_SCRATCHKEYS") != "" { // the variable forces the fallback (self-test of it)
+			// the upload reported success but a root blob of it is already gone, so its keys cannot be read from
+			// this store: they are content-determined, take them from the same upload into a private copy of the
+			// starting state. The loss itself is judged below through the missing keys.
 			res.Stat("late_upload_keys_unreadable", 1)
+			ks = nil
+			sc := mkctx(base.Clone())
+			if b2, e2 := s.upload(sc, memstore.NewActor("scratch-uploader"), u, true, nil); e2 == nil {
+				ks, _ = keysOf(sc, b2)
+			}
+			if ks == nil {
+				ks = map[string]bool{}
+			}
 		}
 		b.keys = ks
 		for k := range ks {
